@@ -14,7 +14,15 @@ if [ -d "$SRC" ]; then WT=$SRC; KEEP=1; else
   WT=/tmp/mut_wt_$NAME; KEEP=0
   git -C /repo worktree remove --force "$WT" 2>/dev/null
   git -C /repo worktree add -q "$WT" HEAD || { echo "cannot create worktree"; exit 2; }
-  git -C "$WT" apply "$SRC" || { echo "patch does not apply"; git -C /repo worktree remove --force "$WT"; exit 2; }
+  # A seeded patch was written against the tree of its day; later fix: commits may have moved its
+  # context. Fall back to a 3-way apply (the old blobs are in the object store), and to a manually
+  # rebased copy of the patch (patch.rebased.diff next to it) when even that conflicts.
+  if ! git -C "$WT" apply "$SRC" 2>/dev/null; then
+    REB=$(dirname "$SRC")/patch.rebased.diff
+    if [ -f "$REB" ] && git -C "$WT" apply "$REB"; then echo "applied rebased patch $REB";
+    elif git -C "$WT" apply --3way "$SRC" && ! git -C "$WT" diff --name-only --diff-filter=U | grep -q .; then echo "applied with 3-way merge"; git -C "$WT" reset -q;
+    else echo "patch does not apply"; git -C /repo worktree remove --force "$WT"; exit 2; fi
+  fi
 fi
 env "$@" VERIF_TARGET_DIR=$TGT VERIF_OUT_DIR=$OUT unshare -m sh -c "mount --bind $WT /repo && cd /verif && ./check $ID --tier $TIER" > "$OUT/log" 2>&1
 RC=$?
